@@ -1,3 +1,74 @@
-(* C03_Spec.v — placeholder, replaced below *)
-From Verif Require Import Common Op_Model Op_Corr.
-Definition P (c : case) : bool := true.
+(* C03_Spec.v — C03 as a decidable predicate over the operator harness' observations:
+   per queue at most one execution, always of the head task; tasks sit in the queue named
+   by their binding; per queue the events keep their arrival order; an action that
+   concerns one queue leaves every other queue exactly as it was. *)
+From Verif Require Import Common Op_Model Op_Corr Op_Spec.
+Open Scope N_scope.
+
+(* the execution shown to the hook is the head task of a queue whose worker is in the handler *)
+Definition exec_is_head (cfg : config) (cur : sobs) (e : eobs) : bool :=
+  match find_q (eo_queue e) (so_queues cur) with
+  | Some q => qo_running q &&
+              match qo_items q with
+              | t :: _ => N.eqb (t_hook t) (eo_hook e)
+                          && list_eqb hookctx_eqb (map (render_ctx (hook_v0 cfg (t_hook t))) (t_ctxs t)) (eo_ctxs e)
+              | [] => false
+              end
+  | None => false
+  end.
+
+Definition running_has_exec (cur : sobs) (q : qobs) : bool :=
+  if qo_running q then match find_e (qo_name q) (so_execs cur) with Some _ => true | None => false end
+  else true.
+
+(* routing: Synchronization, onStartup and Enable* tasks are in main; every other hook-run
+   task is in the queue configured for each of the bindings it carries *)
+Definition task_routed (cfg : config) (qn : N) (t : task) : bool :=
+  match t_type t with
+  | HookRun =>
+      match t_btype t with
+      | BOnStartup => N.eqb qn 0
+      | _ => if is_sync t then N.eqb qn 0
+             else N.eqb (t_queue t) qn
+                  && forallb (fun c => match c_kind c with
+                                       | KSync | KStartup => true
+                                       | _ => match binding_queue cfg (c_binding c) with
+                                              | Some q => N.eqb q qn
+                                              | None => false
+                                              end
+                                       end) (t_ctxs t)
+      end
+  | _ => N.eqb qn 0
+  end.
+Definition queue_routed (cfg : config) (q : qobs) : bool := forallb (task_routed cfg (qo_name q)) (qo_items q).
+
+(* arrival order: event numbers are handed out increasingly by the harness *)
+Definition event_numbers (q : qobs) : list N :=
+  flat_map (fun t => flat_map (fun c => match c_kind c with KEvent => [c_obj c] | _ => [] end) (t_ctxs t)) (qo_items q).
+Definition queue_events_ordered (q : qobs) : bool := increasing (event_numbers q).
+
+(* independence: the queues an action may touch *)
+Definition touched (cfg : config) (a : action) (qn : N) : bool :=
+  match a with
+  | Boot | Stop => true
+  | Finish q _ => N.eqb q qn
+  | Tick c => existsb (fun hb => N.eqb (sb_cron (snd hb)) c && N.eqb (sb_queue (snd hb)) qn) (sched_bindings cfg)
+  | KubeEv m _ => existsb (fun hb => N.eqb (kb_mon (snd hb)) m && N.eqb (kb_queue (snd hb)) qn) (kube_bindings cfg)
+  end.
+Definition untouched_same (cfg : config) (a : action) (prev cur : sobs) : bool :=
+  forallb (fun q => if touched cfg a (qo_name q) then true
+                    else match find_q (qo_name q) (so_queues prev) with
+                         | Some p => qobs_eqb p q
+                         | None => false
+                         end) (so_queues cur).
+
+Definition step_ok (cfg : config) (a : action) (prev cur : sobs) : bool :=
+  negb (so_bad cur)
+  && nodup_N (map eo_queue (so_execs cur))
+  && forallb (exec_is_head cfg cur) (so_execs cur)
+  && forallb (running_has_exec cur) (so_queues cur)
+  && forallb (queue_routed cfg) (so_queues cur)
+  && forallb queue_events_ordered (so_queues cur)
+  && untouched_same cfg a prev cur.
+
+Definition P (c : case) : bool := all_steps (step_ok (c_cfg c)) empty_obs (c_acts c) (c_obs c).
